@@ -31,4 +31,27 @@ def tzSpec (offUs : Int) (sep : Str) : Str :=
     if s % 1000000 == 0 then z ++ sep ++ fmtD0 2 (s / 1000000) else z ++ sep ++ fmtSecondsFrac s
   else z
 
+/-- `pad % v` for one conversion of the token table applied to one value (`"%02d" % 7`) -/
+def fmtVal (pad : Str) (v : Val) : Str :=
+  match pad, v with
+  | ['%', 's'], .str s => s
+  | ['%', 's'], .int i => fmtD i
+  | ['%', 'd'], .int i => fmtD i
+  | ['%', '0', w, 'd'], .int i => fmtD0 (w.toNat - '0'.toNat) i
+  | _, _ => []
+
+/-- what ONE piece of a scanned spec must render to, independently of the two-phase implementation
+(`_compile_format` first builds a `%`-format string, `_loguru_datetime_formatter` applies it later):
+text between matches is copied verbatim; a token of the table renders its kernel value through its padding;
+any other match is a bracket escape and loses exactly its two brackets. -/
+def renderPieceStr (t : Tm) (dt : Dt) : Piece → Str
+  | .text s => s
+  | .tok s => match lookup s Datetime.Gen.table with
+    | some (pad, k) => fmtVal pad (k.eval t dt)
+    | none => (s.drop 1).dropLast
+
+/-- the direct, piece-by-piece rendering of a format body at an instant -/
+def renderBody (body : Str) (dt : Dt) : Str :=
+  (scan body).flatMap (renderPieceStr (timetuple dt) dt)
+
 end Datetime.Spec
